@@ -51,7 +51,8 @@ def cases(draw, tier='quick'):
     return {'mode': mode, 'domain': dom, 'meas': meas, 'data_seed': draw(st.integers(0, 2**31 - 1)),
             'total': draw(st.sampled_from([1.0, 10, 100.0, 1000.0, None])) if mode == 'valid' else draw(st.sampled_from([1.0, 10, 100.0, None])), 'true_total': draw(st.sampled_from([1.0, 20.0, 500.0])),
             'oracle': draw(st.sampled_from(['convex', 'approx', 'pairwise'])),
-            'iters': draw(st.sampled_from([1, 2, 3, 5, 20, 100, 300])), 'inner_iters': draw(st.sampled_from([1, 3]))}
+            'iters': draw(st.sampled_from([1, 2, 3, 5, 20, 100, 300])), 'inner_iters': draw(st.sampled_from([1, 3])),
+            'prior_call': draw(st.integers(0, 2)) == 0}
 
 
 def strategy(tier):
@@ -101,6 +102,11 @@ def run_case(case):
     if case['mode'] == 'valid':
         out.classes.append('iters:%d' % case['iters'])
         eng = mbi.LocalInference(domain, iters=case['iters'], marginal_oracle=case['oracle'], inner_iters=case['inner_iters'])
+        if case.get('prior_call'):
+            # the same estimator object was used before, on other answers to (a prefix of) the same queries
+            prior = [(q, y[::-1].copy() * 0.5, nz, cl) for q, y, nz, cl in ms[:max(1, len(ms) - 1)]]
+            eng.estimate(prior, total=case['total'])
+            out.classes.append('prior_call_on_same_engine')
         model = eng.estimate(ms, total=case['total'])
         L = clique_loss(out, model, meas)
         if not out.ok: return out
@@ -133,6 +139,10 @@ def run_case(case):
     excess = []
     for T in (1000, 4000, 16000):
         eng = mbi.LocalInference(domain, iters=T, marginal_oracle=case['oracle'], inner_iters=case['inner_iters'])
+        if case.get('prior_call'):
+            eng.iters = 3
+            eng.estimate([(q, y[::-1].copy() * 0.5, nz, cl) for q, y, nz, cl in ms[:max(1, len(ms) - 1)]], total=case['total'])
+            eng.iters = T
         model = eng.estimate(ms, total=case['total'])
         tot = float(model.total)
         if not excess:
